@@ -46,7 +46,7 @@ def SafeF17 (s : Sys π ν) (x : String) (c : π) (rail : String) : Prop :=
 /-- F18: whatever a multi-input component recorded for this input keeps resolving to it -/
 def SafeF18 (s : Sys π ν) (t : Nat) (x : String) (c : π) (rail : String) : Prop :=
   ∀ m ∈ s.ids, ∀ e ∈ s.consulted m, s.getIndex e = .ok (some t) →
-    (e = x → nameOfC c = x) ∧ (e ≠ x → effRail c rail = e ∧ e ≠ "")
+    (e = x → nameOfC c = x) ∧ (e ≠ x → effRail c rail = e)
 
 /-- F28: no second PMux -/
 def SafeF28 (s : Sys π ν) (t : Nat) (c : π) : Prop :=
